@@ -227,6 +227,12 @@ where
                 header: checkpoint.chunk.cast(),
                 marker: PhantomData,
             });
+
+            // The checkpoint may have been created while a lower minimum alignment was in force
+            // (inside `aligned`), so its address is not necessarily aligned to `MIN_ALIGN`.
+            if let Some(chunk) = self.chunk.get().as_non_dummy() {
+                chunk.set_pos_addr_and_align(checkpoint.address.get());
+            }
         }
     }
 
